@@ -185,5 +185,12 @@ type CreateIndex struct {
 }
 type DropIndex struct{ Name string }
 type RenameIndex struct{ From, To string }
-type TxStmt struct{ Kind, Name string } // begin commit rollback savepoint release rollback_to
+// TxStmt: begin commit rollback savepoint release rollback_to, and the statements that set transaction characteristics:
+// set_tx (SET TRANSACTION ..., for the current transaction) and set_session_tx (SET SESSION CHARACTERISTICS AS TRANSACTION ... /
+// SET default_transaction_isolation ...: default of the session's later transactions).  Iso is the requested isolation level in
+// lower case ("" = not given: the session default), Access is "" | "read only" | "read write".
+type TxStmt struct {
+	Kind, Name  string
+	Iso, Access string
+}
 type Noop struct{ What string }
